@@ -164,7 +164,7 @@ void execute_c02(const Plan &plan, Verdict &v) {
         std::vector<int> table_of;
         for (int pass = 0; pass < 2; pass++)
         for (const Op &op : plan.ops)
-            if (op.kind == (pass ? "pat2" : "pat") && op.has_s && patstr.size() < 200) {
+            if (op.kind == (pass ? "pat2" : "pat") && op.has_s && patstr.size() < 400) {
                 is_null.push_back(op.arg(0) != 0);   // entry with a NULL callback: a defined header with no action
                 switches.push_back(op.arg(1) != 0 && op.arg(0) == 0);
                 table_of.push_back(pass);
@@ -563,7 +563,7 @@ void generate_c02(Rng &r, const GenOpts &g, Plan &p) {
         std::vector<std::string> roots;
         long nroots = r.range(1, 3);
         for (long i = 0; i < nroots; i++) roots.push_back(POOL[r.below(NPOOL)]);
-        long n = r.chance(1, 40) ? r.range(60, 140) : r.range(2, 12);   // now and then a table the size of a real instrument's
+        long n = r.chance(1, 40) ? (r.chance(1, 4) ? r.range(250, 330) : r.range(60, 140)) : r.range(2, 12);   // now and then a table the size of a real instrument's
         for (long i = 0; i < n; i++) {
             if (r.chance(1, 6))
                 table.push_back(COMMON[r.below(sizeof COMMON / sizeof COMMON[0])]);
